@@ -145,7 +145,13 @@ def check_case(run, case, tier='quick'):
                                       observed={'guesses': r.guesses[:5], 'stderr_tail': r.stderr[-300:]})
                         return
                     rulesets.write_ruleset(path, case['spec'])
-                r = session.run_main(argv + (['--load'] if c else []), trigger=trig, max_guesses=4 * est + 1000)
+                extra = []
+                if c and rng.random() < 0.3:
+                    # the flags of a resumed session come from the save file: repeating none of them, or contradicting them, changes nothing
+                    extra = rng.choice([['--skip_brute'], ['--all_lower'], ['--skip_brute', '--all_lower']])
+                    run.ev('resumes_with_other_flags')
+                argv_c = (['-r', name, '-s', sn] + extra) if (c and rng.random() < 0.5) else (argv + extra)
+                r = session.run_main(argv_c + (['--load'] if c else []), trigger=trig, max_guesses=4 * est + 1000)
                 run.ev('main_runs'); run.ev('POP', len(r.pops))
                 if r.exc is not None:
                     run.violation(f'main() raised {r.exc!r} in cycle {c}', case, observed=r.stderr[-500:]); return
